@@ -233,9 +233,74 @@ def enum_arm_target(body, bb, variant):
     return t["otherwise"]
 
 
-def dominating_conditions(body, bb):
+def variant_sources(body, l, depth=0):
+    """where the value of enum-typed local l is made: [(variant or None, block)] - `l = V(..)` gives (V, block), a move
+    of another local / `Try::branch` of one is followed, any other definition (a call, a projection) gives
+    (None, block): some variant, made there.  None if l is a parameter or has no definition."""
+    if depth > 5 or 1 <= l <= body.arg_count:
+        return None
+    out = []
+    ds = [d for d in body.defs.get(l, []) if not (d[2] and not all(p["k"] == "deref" for p in d[2]))]
+    if not ds:
+        return None
+    for d in ds:
+        if d[3] == "rv":
+            rv = d[4]
+            if rv["k"] == "agg" and rv.get("ak") == "adt" and rv.get("variant") in ("Ok", "Err", "Some", "None", "Continue", "Break"):
+                out.append((rv["variant"], d[0]))
+            elif rv["k"] == "use" and rv["op"]["k"] in ("copy", "move") and not [p for p in rv["op"]["pl"]["p"] if p["k"] != "deref"]:
+                r = variant_sources(body, rv["op"]["pl"]["l"], depth + 1)
+                out += r if r is not None else [(None, d[0])]
+            else:
+                out.append((None, d[0]))
+        elif d[3] == "call":
+            fn = d[4]["fn"]
+            if canon(fn.get("def") or "") == "std::ops::Try::branch" and d[4]["args"] and d[4]["args"][0]["k"] in ("copy", "move") \
+                    and not [p for p in d[4]["args"][0]["pl"]["p"] if p["k"] != "deref"]:
+                r = variant_sources(body, d[4]["args"][0]["pl"]["l"], depth + 1)
+                if r is None:
+                    out.append((None, d[0]))
+                else:
+                    out += [({"Ok": "Continue", "Some": "Continue", "Err": "Break", "None": "Break"}.get(v, v), b) for v, b in r]
+            else:
+                out.append((None, d[0]))
+        else:
+            out.append((None, d[0]))
+    return out
+
+
+def dominating_conditions(body, bb, _depth=0):
     """[(Cond, truth)] for bool/cmp/call switches S such that every path entry->bb takes exactly the
-    true (or false) edge of S; for enum switches truth is the variant name (or ('not', [names]))."""
+    true (or false) edge of S; for enum switches truth is the variant name (or ('not', [names])).
+    Correlated conditions: if a forced enum arm is on a local that is only ever *built* as a known variant
+    (`r = Ok(..)` here, `r = Err(..)` there - e.g. the result of a spliced guard helper or of an expanded combinator,
+    possibly passed through `?`), the arm taken identifies the building site, and what is forced there holds too."""
+    key = (bb, _depth)
+    memo = body.__dict__.setdefault("_domc", {})
+    if key in memo:
+        return memo[key]
+    out = _dominating_conditions(body, bb)
+    if _depth < 6:
+        extra = []
+        for c, truth in out:
+            if c.kind != "enum" or c.place is None or not isinstance(truth, tuple) or (truth and truth[0] == "not"):
+                continue
+            if [p for p in c.place["p"] if p["k"] != "deref"]:
+                continue
+            srcs = variant_sources(body, c.place["l"])
+            if not srcs:
+                continue
+            sel = sorted({b for v, b in srcs if v is None or v in truth})
+            if len(sel) == 1 and sel[0] != bb and len(srcs) > 1:
+                for c2, t2 in dominating_conditions(body, sel[0], _depth + 1):
+                    if not any(c2.bb == c3.bb for c3, _t in out + extra):
+                        extra.append((c2, t2))
+        out = out + extra
+    memo[key] = out
+    return out
+
+
+def _dominating_conditions(body, bb):
     out = []
     if bb not in body.dom:
         return out
@@ -462,6 +527,25 @@ class Intervals:
 
     def _refine2(self, key, lo, hi):
         for c, truth in self.conds():
+            if c.kind == "int" and c.place is not None and operand_key(self.body, {"k": "copy", "pl": c.place}) == key and isinstance(truth, tuple):
+                # `match x { 0 => .., 5 => .., _ => .. }`
+                try:
+                    vals = sorted(int(v) for v in truth[1])
+                except (TypeError, ValueError):
+                    vals = []
+                if truth[0] == "in" and vals:
+                    lo, hi = max(lo, vals[0]), min(hi, vals[-1])
+                elif truth[0] == "not":
+                    ch = True
+                    while ch:
+                        ch = False
+                        if lo in vals:
+                            lo += 1
+                            ch = True
+                        if hi in vals:
+                            hi -= 1
+                            ch = True
+                continue
             if c.kind != "cmp":
                 continue
             ka = operand_key(self.body, c.a)
